@@ -413,7 +413,10 @@ class HeapObj(object):
             it = [list(r) for r in it] if self.kind == "matrix" else list(it)
         elif isinstance(it, dict):
             it = dict(it)
-        return HeapObj(self.cls, self.kind, dict(self.fields), it)
+        f = dict(self.fields)
+        if self.kind == "symlist":
+            f["cols"] = dict(f["cols"])
+        return HeapObj(self.cls, self.kind, f, it)
 
 
 class Closure(object):
